@@ -72,6 +72,9 @@ def run(res, programs, tier):
             _r10_2b(res, P, P.name)
         if "dashu_ratio" in P.units:
             _r10_3(res, P, P.name)
+        if "dashu_float" in P.units:
+            from . import pow2base
+            pow2base.rule(res, P, P.name, "R10.8")
         if "dashu_float" in P.units and "dashu_ratio" in P.units and P.role == "main":
             polarity.rule(res, P, P.name, "R10.4")
             from . import halftest
@@ -368,3 +371,4 @@ LEVEL = LEVEL + ' Also (R10.2b) every Inexact adjustment of the mode-generic rou
 TECHNIQUE = 'finite-domain tabulation of round_fract / round_ratio / rational rounding bodies for all six modes against a definition oracle; call-shape rules; bound-polarity type system; half-test pairing'
 LEVEL = LEVEL + ' Also (R10.6) with_precision rounds with the new context unless the old precision is limited and not larger.'
 LEVEL = LEVEL + ' (R10.7) the tiny-value shortcut: split_at_point_internal is reached from rounding callers only where smaller_than_one() is false, so the digit count of the discarded part is never under-estimated.'
+LEVEL = LEVEL + ' (R10.8) inside a `B.is_power_of_two()` branch of the float / rational code every shift amount depends on B.trailing_zeros(): a digit count is never used as a bit count for bases 4, 8, 16, ...'
